@@ -6,5 +6,5 @@ PROPS=${*:-"C01 C02 C03 C04 C05 C06 C07 C08 C09 C10 C11 C12 C13 C14 C15 C16 C17 
 cd /verif
 for s in $SEEDS; do for p in $PROPS; do
   o=$(VERIF_SEED=$s ./check $p $TIER 2>&1); rc=$?
-  echo "seed=$s $p rc=$rc $(echo "$o" | grep -E '^(HELD|VIOLATION|INCONCLUSIVE|violation)' | head -2 | tr '\n' ' ' | cut -c1-260)"
+  echo "seed=$s $p rc=$rc $(echo "$o" | grep -a -E '^(HELD|VIOLATION|INCONCLUSIVE|violation)' | head -2 | tr '\n' ' ' | cut -c1-260)"
 done; done
